@@ -294,6 +294,17 @@ func c14ConcOracle(c c14ConcCase) error {
 						errs[w] = fmt.Errorf("worker %d: an earlier snapshot changed after a later scan", w)
 						return
 					}
+				case op == 12:
+					// a line longer than the read buffer, forwarded to a writer that is slow to take
+					// it, while other goroutines scan long lines of their own
+					long := bytes.Repeat([]byte(fmt.Sprintf("worker-%d|", w)), 2200)
+					in := append(append(append([]byte{}, long...), '\n'), raceFixture...)
+					sw := &slowWriter{}
+					sn, _, _ := stack.ScanSnapshot(bytes.NewReader(in), sw, &stack.Opts{})
+					if sn == nil || !bytes.Equal(sw.b.Bytes(), append(long, '\n')) {
+						errs[w] = fmt.Errorf("worker %d: a %d byte line forwarded to a slow writer while other goroutines scan arrived altered (or the report after it was not found): %s", w, len(long), firstDiffBytes(append(long, '\n'), sw.b.Bytes()))
+						return
+					}
 				case op == 11:
 					// rendering into a writer that is slow to take the bytes (a network client)
 					sw := &slowWriter{}
@@ -371,7 +382,7 @@ var c14Conc = Check[c14ConcCase]{
 		nw := rapid.IntRange(2, 16).Draw(t, "workers")
 		c := c14ConcCase{D: d, Procs: rapid.SampledFrom([]int{1, 2, 16}).Draw(t, "procs")}
 		for w := 0; w < nw; w++ {
-			c.Workers = append(c.Workers, rapid.SliceOfN(rapid.IntRange(0, 11), 1, 8).Draw(t, "ops"))
+			c.Workers = append(c.Workers, rapid.SliceOfN(rapid.IntRange(0, 12), 1, 8).Draw(t, "ops"))
 		}
 		return c
 	},
